@@ -27,6 +27,13 @@ extern "C" __attribute__((used)) const char* __tsan_default_options() {
     return "exitcode=66:halt_on_error=1:report_signal_unsafe=0:second_deadlock_stack=1";
 }
 
+// The harness' own bookkeeping (event log, GUI, stream buffers) is serialised by the baton, which TSan cannot see;
+// libc interceptors (memcpy, operator new) would report it. Only frames of harness namespaces are suppressed,
+// never anything in the repository's code.
+extern "C" __attribute__((used)) const char* __tsan_default_suppressions() {
+    return "race:sess::\nrace:vsim::\nrace:vf::\nrace:uci::\nrace:pg::\nrace:gu::\nrace:dtm::\nrace:tba::\nrace:verif_\n";
+}
+
 static int g_wallLimit = 120;
 
 static std::string readAll(int fd) {
